@@ -223,9 +223,10 @@ func run(c *core.Ctx) error {
 	// 1. the model decides (runs concurrently with the engines)
 	// (quick: the two configurations dumped for engine A below ARE the model
 	// check - TLC verifies EnumIsHits / NoneEqualsScored while enumerating)
-	var models []modelCfg
+	models := []modelCfg{{"QueryLaws_mc.cfg", 1, 8 * time.Minute}} // sanity laws of the oracle itself
 	if c.Thorough() {
 		models = []modelCfg{
+			{"QueryLaws_mc.cfg", 1, 8 * time.Minute},
 			{"MCSearchers_c02_t_flat.cfg", 4, 28 * time.Minute},
 			{"MCSearchers_c02_t_flat_bm.cfg", 2, 28 * time.Minute},
 			{"MCSearchers_c02_t_heap.cfg", 2, 28 * time.Minute},
@@ -233,12 +234,19 @@ func run(c *core.Ctx) error {
 			{"MCSearchers_c02_t_flat5.cfg", 2, 28 * time.Minute},
 		}
 	}
+	if os.Getenv("VERIF_DEV_SKIP_MODEL") != "" { // development aid (mutant runs): the model does not depend on the code
+		models = nil
+	}
 	var wg sync.WaitGroup
 	for _, m := range models {
 		wg.Add(1)
 		go func(m modelCfg) {
 			defer wg.Done()
-			c.ModelCheck("MCSearchers", m.cfg, core.Workers(m.workers), core.Timeout(m.timeout))
+			mod := "MCSearchers"
+			if strings.HasPrefix(m.cfg, "QueryLaws") {
+				mod = "QueryLaws"
+			}
+			c.ModelCheck(mod, m.cfg, core.Workers(m.workers), core.Timeout(m.timeout))
 		}(m)
 	}
 	defer wg.Wait()
@@ -512,7 +520,7 @@ func judgeCases(c *core.Ctx, cases []*caseT, account bool) error {
 		}
 	}
 	for _, f := range pfails {
-		if f.strict && !tolerantFailed[f.ref.cs] {
+		if f.strict && !tolerantFailed[f.ref.cs] && !strings.Contains(f.class, "+") {
 			what := fmt.Sprintf("%s violated by runs %s: query %s over %d live documents returns %v (total %d); the deviation is the one described in spec/Query.tla mode for %s",
 				f.inv, runNames(f.ref.runs), mustJSON(f.ref.cs.Q.JSON()), f.ref.cs.NLive, f.ref.runs[0].Hits, f.ref.runs[0].Total, f.class)
 			c.Violation(f.class, what, replayData(f.ref.cs, f.ref.runs))
@@ -542,11 +550,32 @@ func replayData(cs *caseT, runs []runRec) map[string]any {
 // signature names the failed clause, the engines/variants that fail it
 // (grouped by answer, each group judged by TLC) and the shape of the query
 // after shrinking.
+var unknownMu sync.Mutex
+var unknownSeen = map[string]bool{}
+var unknownDetailed int
+
 func reportUnknown(c *core.Ctx, cs *caseT, runs []runRec, inv string) {
-	class := failingClass(c, cs, runs)
+	// classification and shrinking cost several TLC runs each: done for the
+	// first three distinct (clause, shape) pairs only
+	unknownMu.Lock()
+	pre := inv + "|" + cs.Q.Shape()
+	seen := unknownSeen[pre]
+	unknownSeen[pre] = true
+	detailed := !seen && unknownDetailed < 3
+	if detailed {
+		unknownDetailed++
+	}
+	unknownMu.Unlock()
+	if seen {
+		return
+	}
+	class := "unclassified"
 	shape := cs.Q.Shape()
-	if small := shrink(c, cs, runs); small != nil {
-		shape = small.Shape()
+	if detailed {
+		class = failingClass(c, cs, runs)
+		if small := shrink(c, cs, runs); small != nil {
+			shape = small.Shape()
+		}
 	}
 	sig := fmt.Sprintf("%s:%s:%s", inv, class, shape)
 	what := fmt.Sprintf("%s violated (%s): query %s over %d live documents; runs %s returned %v total %d",
